@@ -4,6 +4,10 @@ from checks import c01
 from checks import c03
 from checks import c09
 from checks import c10
+from checks import c11
+from checks import c12
+from checks import c16
+from checks import c17
 from checks import c13
 from checks import c14
 from checks import c05
@@ -26,17 +30,23 @@ def c06(ctx):
 
 
 def c07(ctx):
-    return server_family.run(ctx, "C07", 32)
+    level = server_family.run(ctx, "C07", 32)
+    c01.run_blob_half(ctx, "C07")      # the device half: fidelity of the blob, altered blobs make TO2 abort
+    return level
 
 
 CHECKS = {
     "C10": c10.run,
     "C05": c05.run,
+    "C11": c11.run,
+    "C12": c12.run,
     "C13": c13.run,
     "C14": c14.run,
     "C15": c15.run,
     "C19": c19.run,
     "C20": c20.run,
+    "C16": c16.run,
+    "C17": c17.run,
     "C18": c18.run,
     "C01": c01.run,
     "C03": c03.run,
